@@ -213,7 +213,13 @@ def get_iface(topo, ref):
 
 
 def get_service(topo, name, cached=False):
-    """cached=True: reuse the handle object an earlier call returned (users keep handles), if there is one."""
+    """cached=True: reuse the handle object an earlier call returned (users keep handles), if there is one.
+    name = ['stale', k]: a handle whose service was removed after the handle was obtained (op make_stale_services)."""
+    if isinstance(name, (list, tuple)) and name and name[0] == 'stale':
+        st = getattr(topo, '_verif_stale_services', None)
+        if not st:
+            raise Unresolved('no stale service handles prepared')
+        return st[name[1] % len(st)]
     if cached:
         h = getattr(topo, '_verif_handles', {}).get(name)
         if h is not None:
@@ -343,6 +349,15 @@ def execute(topo, op):
         n.add_component(name='stalenic', model_type=ComponentModelType.SmartNIC_ConnectX_6, **kwn)
         topo._verif_stale = list(n.interface_list)
         topo.remove_node(op['name'])
+        return None
+    if o == 'make_stale_services':
+        # keep the handles of two services, then remove the services the documented way
+        keep = []
+        for nm, ty, nid in (('stale-svc-a', 'L2Bridge', op.get('node_id')), ('stale-svc-b', 'L3VPN', op.get('node_id2'))):
+            keep.append(topo.add_network_service(name=nm, node_id=nid, nstype=ServiceType[ty]))
+        for nm in ('stale-svc-a', 'stale-svc-b'):
+            topo.remove_network_service(nm)
+        topo._verif_stale_services = keep
         return None
     if o == 'validate':
         return topo.validate()
@@ -578,7 +593,12 @@ class Gen:
                 m = r.random()
                 lab = {'vlan': str(r.choice([100, 101, 102, 4097]))} if m < 0.9 else ({} if m < 0.95 else None)
                 kw = {'labels': lab} if lab is not None else {}
-                return {'op': 'add_child_interface', 'iface': ref, 'name': self.pick_name(ch, 'sub'), 'node_id': self.maybe_id('sub'), 'kw': kw}
+                name = self.pick_name(ch, 'sub')
+                # names are unique within the parent port only: reuse a name carried by a sub-interface of another port
+                elsewhere = sorted({tm.name(c) for _, j in ded if j != i for c in tm.children(j)} - set(ch))
+                if elsewhere and r.random() < 0.35:
+                    name = r.choice(elsewhere)
+                return {'op': 'add_child_interface', 'iface': ref, 'name': name, 'node_id': self.maybe_id('sub'), 'kw': kw}
         if k < 91:
             withch = [(ref, i) for ref, i in self.iface_refs(tm, with_subs=False) if tm.children(i)]
             if withch:
